@@ -93,7 +93,7 @@ func cfgByName(n string) *acfg {
 			return c
 		}
 	}
-	return nil
+	return landingCfgByName(n)
 }
 
 // ---------------------------------------------------------------------------------------------
@@ -170,7 +170,7 @@ const patPeriod = 31
 
 func pat(stamp, pos int) byte { return byte(1 + (stamp*41+pos%patPeriod)%255) }
 
-const maxStamps = 6
+const maxStamps = 8 // the longest program (6) plus the two operations of a class-invariant probe
 
 var stampOf [255]int8
 
@@ -609,6 +609,9 @@ type runRes struct {
 	lens    [maxHandles]int
 	caps    [maxHandles]int
 	invalid bool
+	// capacities of the buffers given back to the allocator and not handed out again, most
+	// recent last (the relative Malloc sizes of the extended search are derived from them)
+	graveCaps []int
 }
 
 var digits = regexp.MustCompile(`\d+`)
@@ -649,6 +652,9 @@ func execute(c *acfg, prog []op, miss []int, checkAll bool) *runRes {
 				res.nlive++
 				res.lens[i], res.caps[i] = len(*p), cap(*p)
 			}
+		}
+		for _, g := range w.grave {
+			res.graveCaps = append(res.graveCaps, cap(*g))
 		}
 		res.key = w.key()
 	}
